@@ -26,6 +26,8 @@ import (
 	"os"
 	"path/filepath"
 	"sort"
+	"sync/atomic"
+	"time"
 
 	"github.com/canopy-network/canopy/bft"
 	"github.com/canopy-network/canopy/controller"
@@ -53,6 +55,9 @@ func NewSim() *Sim { return &Sim{Log: lib.NewNullLogger()} }
 
 // Close closes all nodes.
 func (s *Sim) Close() {
+	if produceHung.Load() {
+		return // a ProduceProposal call is still spinning inside a controller: closing its store would only crash the report
+	}
 	for _, n := range s.Nodes {
 		n.Close()
 	}
@@ -305,23 +310,50 @@ func NoEvidence() *bft.ByzantineEvidence {
 	return &bft.ByzantineEvidence{DSE: bft.DoubleSignEvidences{}}
 }
 
+// ProduceBound is how long Produce waits for Controller.ProduceProposal (normally well below a second) before it reports
+// a hang. The proposal loop of the controller (loadProposalBlockLocked) spins while holding the controller lock when the
+// cached proposal can never match the current proposal-vote configuration - a liveness failure, not a slow run.
+var ProduceBound = 60 * time.Second
+
+// produceHung: once a ProduceProposal call did not return, later calls fail at once (the spinning call still holds locks)
+var produceHung atomic.Bool
+
 // Produce = BFT.StartProposePhase's call of Controller.ProduceProposal (no evidence, no VDF).
 func (n *Node) Produce() (*Proposal, lib.ErrorI) {
 	n.Sim.Activate(n)
+	if produceHung.Load() {
+		return nil, lib.NewError(lib.CodeInvalidArgument, lib.ConsensusModule, "ProduceProposal HANGS (an earlier call in this process never returned)")
+	}
 	n.RefreshConsensus()
-	n.C.Lock()
-	defer n.C.Unlock()
-	h := n.C.FSM.Height()
-	rc, blk, res, err := n.C.ProduceProposal(NoEvidence(), nil)
-	if err != nil {
-		return nil, err
+	type out struct {
+		p *Proposal
+		e lib.ErrorI
 	}
-	b := new(lib.Block)
-	hash, err := b.BytesToBlockHash(blk)
-	if err != nil {
-		return nil, err
+	done := make(chan out, 1)
+	c := n.C
+	go func() {
+		c.Lock()
+		defer c.Unlock()
+		h := c.FSM.Height()
+		rc, blk, res, err := c.ProduceProposal(NoEvidence(), nil)
+		if err != nil {
+			done <- out{nil, err}
+			return
+		}
+		hash, err := new(lib.Block).BytesToBlockHash(blk)
+		if err != nil {
+			done <- out{nil, err}
+			return
+		}
+		done <- out{&Proposal{Height: h, RcBuildHeight: rc, Block: blk, BlockHash: hash, Results: res}, nil}
+	}()
+	select {
+	case o := <-done:
+		return o.p, o.e
+	case <-time.After(ProduceBound):
+		produceHung.Store(true)
+		return nil, lib.NewError(lib.CodeInvalidArgument, lib.ConsensusModule, fmt.Sprintf("ProduceProposal HANGS: no return within %s (proposal vote config %v)", ProduceBound, n.ApproveList))
 	}
-	return &Proposal{Height: h, RcBuildHeight: rc, Block: blk, BlockHash: hash, Results: res}, nil
 }
 
 // Validate = BFT.StartProposeVotePhase's call of Controller.ValidateProposal; on success the block result is cached in
